@@ -60,7 +60,10 @@ class PoolSpec(hist.Spec):
     def build(self):
         pool = make_pool(self.level)
         for op in self.pre:        # a non-initial start: a small tree already assembled and looked up by name
-            self.apply(pool, op)
+            try:
+                self.apply(pool, op)
+            except Exception:
+                pass                # refused under this level (e.g. a second CX_1 under STRICT): the start is what results
         return pool
 
     def alphabet(self, pool, hist_):
